@@ -4,7 +4,7 @@ Specification: spec/Life.tla (state machine thread with its non-atomic teardown,
 1..2 consumers blocked in get_message, an application thread calling close(), the peer as environment: disconnect
 at any moment, DPR, DPA, refused connection).  TLC checks TerminalOk (no reachable state in which the connection is
 ending, no thread can move and something is not released), ClosedIsReleased, NoLockLeak for both roles and, under
-fairness, EventuallyReleased / CausesEnd; eight deviations (behaviours the tree had) are shown to violate them.
+fairness, EventuallyReleased / CausesEnd; ten deviations (behaviours the tree had) are shown to violate them.
 Binding:
  monitors -- the real node under the deterministic scheduler: every termination cause x every point of the
       connection life x {consumer blocked, not} x role, random and PCT schedules; after the end: state Closed,
@@ -28,9 +28,9 @@ from . import assoc, node as nodemod
 T = tlc.tla
 
 
-def cfg(role, consumers, dev="{}", live=False, budget=2):
+def cfg(role, consumers, dev="{}", live=False, budget=2, invs=("TerminalOk", "ClosedIsReleased", "NoLockLeak")):
     c = (f"SPECIFICATION {'FairSpec' if live else 'Spec'}\nCONSTANTS Role = \"{role}\"\n Consumers = {{{', '.join(map(str, consumers))}}}\n Budget = {budget}\n"
-         f" Deviations = {dev}\nINVARIANT TerminalOk\nINVARIANT ClosedIsReleased\nINVARIANT NoLockLeak\nCHECK_DEADLOCK FALSE\n")
+         f" Deviations = {dev}\n" + "".join(f"INVARIANT {i}\n" for i in invs) + "CHECK_DEADLOCK FALSE\n")
     if live:
         c += "PROPERTY EventuallyReleased\nPROPERTY CausesEnd\n"
     return c
@@ -49,7 +49,7 @@ Proj == [phase |-> phase, running |-> running, active |-> active, stopA |-> stop
          peerEof |-> peerEof, refused |-> refused]
 Fields == DOMAIN Proj
 T == Traces[tid]
-TraceInit == tid = 1 /\ l = 1 /\ Init /\ Proj = Traces[1][1] /\ TLCSet(1, <<1, 1>>)
+TraceInit == tid = 1 /\ l = 1 /\ StartedInit /\ Proj = Traces[1][1] /\ TLCSet(1, <<1, 1>>)
 \* a real scheduler step may span several model steps: every observed variable moves from its current to its next recorded value
 \* (set membership, not a disjunction: TLC would fork the next-state computation on every field)
 Mix == LET nx == IF l < Len(T) THEN l + 1 ELSE l IN \A f \in Fields : Proj'[f] \in {T[l][f], T[nx][f]}
@@ -61,7 +61,7 @@ TraceNext == \/ /\ Next /\ Mix /\ tid' = tid
                 /\ tpc' = "check" /\ wpc' = "top" /\ alock' = Free /\ plock' = Free /\ ready' = FALSE /\ postQ' = 0
                 /\ cpc' = [c \in Consumers |-> "idle"] /\ cmsg' = [c \in Consumers |-> FALSE] /\ apc' = "idle" /\ spc' = "idle"
                 /\ peerEof' = FALSE /\ rst' = FALSE /\ dprIn' = FALSE /\ dprSent' = FALSE /\ dpaIn' = FALSE /\ estab' = FALSE
-                /\ refused' = Traces[tid + 1][1].refused /\ inbound' = 0 /\ budget' = Budget
+                /\ refused' = Traces[tid + 1][1].refused /\ inbound' = 0 /\ budget' = Budget /\ registered' = TRUE /\ stpc' = "done"
 TraceSpec == TraceInit /\ [][TraceNext]_<<vars, tid, l>>
 Accepted == PrintT(<<"PROGRESS", TLCGet(1), Len(Traces), Len(Traces[Len(Traces)])>>)
 ====
@@ -133,7 +133,7 @@ def validate(rep, role, items, selftest=False):
     try:
         tf = os.path.join(wd, "traces.json")
         json.dump([ev for ev, _m in items], open(tf, "w"))
-        c = cfg(role, [1]).replace("SPECIFICATION Spec", "SPECIFICATION TraceSpec").replace("INVARIANT TerminalOk\n", "")
+        c = cfg(role, [1], invs=("ClosedIsReleased", "NoLockLeak")).replace("SPECIFICATION Spec", "SPECIFICATION TraceSpec")
         c += "CONSTRAINT Progress\nPOSTCONDITION Accepted\n"
         res, _ = tlc.run("Trace_Life", c, extra_modules={"Trace_Life": TRACE_MODULE.replace("TRACEFILE", T(tf))}, wd=wd, workers=1,
                          timeout=3000, java_opts=("-Dtlc2.tool.queue.IStateQueue=StateDeque",))
@@ -161,7 +161,8 @@ def validate(rep, role, items, selftest=False):
         tlc.cleanup(wd)
 
 
-DEVIATIONS = ("D_BlockingGet", "D_NoWakeOnClose", "D_ServerEofIgnored", "D_SetupEofIgnored", "D_WorkerUnguarded", "D_UnlockedStop", "D_SenderKeepsLock", "D_ResetUnhandled")
+DEVIATIONS = ("D_BlockingGet", "D_NoWakeOnClose", "D_ServerEofIgnored", "D_SetupEofIgnored", "D_WorkerUnguarded", "D_UnlockedStop", "D_SenderKeepsLock", "D_ResetUnhandled",
+              "D_ConnectedBeforeRegistered", "D_CloseSkipsUnregistered")
 
 CASES = [(role, cause, point) for role in ("client", "server")
          for cause, points in (("local", ("open", "open-inbound", "open-outbound")),
@@ -176,26 +177,30 @@ CASES = [(role, cause, point) for role in ("client", "server")
 def run(rep):
     nodemod.ensure_installed(rep.seed)
     quick = rep.tier == "quick"
-    rep.rule = ("TLC: teardown model, both roles, 2 consumers, every interleaving (+ liveness with 1 consumer; 8 deviations shown to violate the "
+    rep.rule = ("TLC: teardown model, both roles, 2 consumers, every interleaving (+ liveness with 1 consumer; 10 deviations shown to violate the "
                 "properties); monitors: cause x point x consumer x role under random / PCT schedules with restart; one-preemption sweeps at line "
                 "granularity; distinct = executions")
-    b = 1 if quick else 2
-    # safety: both roles; the quick tier keeps the second consumer for the client only
-    for role, consumers in (("client", [1, 2]), ("server", [1] if quick else [1, 2])):
-        res, _ = tlc.run("Life", cfg(role, consumers, budget=b), workers=16, timeout=3400)
+    # safety: both roles; the second consumer (needed for the consumer / consumer races) without inbound traffic in the quick tier
+    runs = ([("client", [1, 2], 0), ("client", [1], 1), ("server", [1], 1)] if quick else [("client", [1, 2], 2), ("server", [1, 2], 1)])
+    for role, consumers, b in runs:
+        res, _ = tlc.run("Life", cfg(role, consumers, budget=b), workers=16, timeout=5000)
         tlc.must_ok(res, f"Life {role}")
         rep.tlc(f"Life role={role} consumers={consumers} budget={b} safety", res)
-    # liveness (fair behaviours): quick tier without inbound application traffic
-    for role in ("client", "server"):
-        lb = 0 if quick else 1
+    # liveness (fair behaviours)
+    for role, lb in ((("client", 0),) if quick else (("client", 1), ("server", 1))):
         res, _ = tlc.run("Life", cfg(role, [1], live=True, budget=lb), workers=16, timeout=6000)
         tlc.must_ok(res, f"Life {role} liveness")
         rep.tlc(f"Life role={role} consumers=[1] budget={lb} liveness", res)
-    for dev in DEVIATIONS:
+    # vacuity: every deviation violates a property (quick tier: the cheap ones; thorough: all)
+    for dev in (("D_BlockingGet", "D_WorkerUnguarded", "D_SenderKeepsLock", "D_ConnectedBeforeRegistered") if quick else DEVIATIONS):
         role = "server" if dev == "D_ServerEofIgnored" else "client"
         live = dev in ("D_ServerEofIgnored", "D_SetupEofIgnored", "D_ResetUnhandled")       # a connection that never closes is a liveness failure
         consumers = [1, 2] if dev == "D_UnlockedStop" else [1]
-        r2, _ = tlc.run("Life", cfg(role, consumers, dev='{"%s"}' % dev, live=live, budget=0 if live else 1), workers=16, timeout=1800)
+        devset, invs = '{"%s"}' % dev, ("TerminalOk", "ClosedIsReleased", "NoLockLeak")
+        if dev == "D_CloseSkipsUnregistered":
+            # reachable only together with the early connected flag; shown on the socket invariant alone
+            devset, invs = '{"D_ConnectedBeforeRegistered", "D_CloseSkipsUnregistered"}', ("ClosedIsReleased",)
+        r2, _ = tlc.run("Life", cfg(role, consumers, dev=devset, live=live, budget=0, invs=invs), workers=16, timeout=1800)
         if not r2.violated:
             raise tlc.TlcError(f"vacuity self-test: deviation {dev} violates nothing")
         rep.notes.setdefault("deviations_shown_to_violate", {})[dev] = r2.violated
